@@ -145,28 +145,33 @@ Fixpoint g_all (o : vopts) (m : vmode) (n : dnode) {struct n} : bool :=
   end.
 
 (* ---- named deviation classes, for reporting (first one met in a pre-order walk) ---- *)
+
 Definition sensitive (a : list (string * json)) (pre : string) : bool :=
   negb (Bool.eqb (aok a (pre ++ "none")) (aok a (pre ++ "req")) && Bool.eqb (aok a (pre ++ "none")) (aok a (pre ++ "res"))).
 
-(* reporting class of the first child that sits under an edge the implementation does not descend *)
+(* reporting class of the first non-conforming child that sits under an edge the implementation does not descend *)
 Definition unvisited_labels : list string := ["servers";"callbacks";"security";"examples";"encoding";"discriminator";"xml"].
 Fixpoint index_of (s : string) (l : list string) (i : N) : N :=
   match l with [] => i | x :: r => if String.eqb s x then i else index_of s r (N.succ i) end.
-Definition unvisited_class (o : vopts) (n : dnode) : N :=
-  match filter (fun x => match x with (lbl, _, _) => required (nd_kind n) lbl && negb (visited o n lbl) end) (nd_kids n) with
+Definition unvisited_class (o : vopts) (pos1 : exmode) (n : dnode) : N :=
+  match filter (fun x => match x with (lbl, _, c) => required (nd_kind n) lbl && negb (visited o n lbl) && negb (conforms o pos1 c) end) (nd_kids n) with
   | (lbl, _, _) :: _ => 20 + index_of lbl unvisited_labels 0
   | [] => 0
   end%N.
 
-Definition class_here (o : vopts) (m : vmode) (n : dnode) : N :=
+Definition local_differs (o : vopts) (pos1 : exmode) (n : dnode) : bool :=
+  existsb (fun st => negb (Bool.eqb (local o st n) (local_spec o pos1 n))) modes.
+
+Definition class_here (o : vopts) (m : vmode) (pos : exmode) (n : dnode) : N :=
   match n with
   | DN k r a ks =>
+      let pos1 := pos_enter k pos in
       if negb (g_ref o m r) then 8
-      else if g_local o n && g_edges o n then 0
+      else if negb (local_differs o pos1 n) then unvisited_class o pos1 n
       else if is_k k "Paths" &&
               negb (forallb (fun kc => Bool.eqb (path_params_ok (fst kc) (snd kc)) (path_params_spec (fst kc) (snd kc))) (kids_of "items" ks)) then 2
       else if is_k k "Paths" && negb (nodup_l (map (fun kc => tpl_shape (fst kc) false) (kids_of "items" ks))) then 3
-      else if is_k k "Header" && negb (g_local o n) then 4
+      else if is_k k "Header" then 4
       else if is_k k "Parameter" && vo_noex o && has_kid "schema" ks && negb (ext_ok o a) then 5
       else if (is_k k "Parameter" || is_k k "MediaType") && negb (has_kid "schema" ks)
               && ahas a "#has_example" && ahas a "#has_examples" then 6
@@ -176,21 +181,20 @@ Definition class_here (o : vopts) (m : vmode) (n : dnode) : N :=
                                              && aok (nd_attrs (snd kc)) "#val_res"))
                          (kids_of "examples" ks) then 7
       else if sensitive a "#ex_" || existsb (fun kc => sensitive (nd_attrs (snd kc)) "#val_") (kids_of "examples" ks) then 1
-      else if negb (g_edges o n) then unvisited_class o n
       else 10
   end%N.
 
-Fixpoint first_class (o : vopts) (m : vmode) (n : dnode) {struct n} : N :=
+Fixpoint first_class (o : vopts) (m : vmode) (pos : exmode) (n : dnode) {struct n} : N :=
   match n with
   | DN k r a ks =>
-      let c := class_here o m n in
+      let c := class_here o m pos n in
       if negb (N.eqb c 0) then c
       else
         (fix go (l : list (string * string * dnode)) : N :=
            match l with
            | [] => 0%N
            | (lbl, _, c) :: l' =>
-               let x := if required k lbl then first_class o (mode_of o n lbl) c else 0%N in
+               let x := if required k lbl && visited o n lbl then first_class o (mode_of o n lbl) (pos_enter k pos) c else 0%N in
                if negb (N.eqb x 0) then x else go l'
            end) ks
   end.
